@@ -3822,6 +3822,19 @@ static Value eval_expression(ASTNode *expr, Environment *env) {
                     case VAL_STRING:
                         ((char**)arr.as.array_val->data)[i] = strdup(elem.as.string_val);
                         break;
+                    case VAL_STRUCT: {
+                        /* the array owns a copy of each struct, as in array_new / array_set */
+                        if (elem.type != VAL_STRUCT || !elem.as.struct_val) {
+                            fprintf(stderr, "Error: Type mismatch in array literal\n");
+                            return create_void();
+                        }
+                        Value copy = create_struct(elem.as.struct_val->struct_name,
+                            elem.as.struct_val->field_names,
+                            elem.as.struct_val->field_values,
+                            elem.as.struct_val->field_count);
+                        ((StructValue**)arr.as.array_val->data)[i] = copy.as.struct_val;
+                        break;
+                    }
                     default:
                         fprintf(stderr, "Error: Unsupported array element type\n");
                         break;
